@@ -764,6 +764,8 @@ pub fn main() {
             }
         }
     }
+    crate::util::crash_guard(&cli.root, &cli.property);
+    crate::util::crash_note("{\"engine\":\"mc-disp\",\"property\":\"C11\",\"part\":\"a\",\"oracle\":\"process crash while fetching system data\"}");
     let mut findings = vec![];
     // ---- (a)
     let mut shapes_checked = 0;
@@ -800,6 +802,7 @@ pub fn main() {
         gs.extend(graphs(4, &[0, 1, 2, 4, 6]));
     }
     let results = crate::util::par_map(&gs, |g| {
+        crate::util::crash_note(&format!("{{\"engine\":\"mc-disp\",\"property\":\"C11\",\"part\":\"b\",\"oracle\":\"process crash while building or dispatching\",\"graph\":{}}}", serde_json::to_string(g).unwrap_or_default()));
         let st = match stages_of(g) {
             Ok(s) => s,
             Err(e) => return (0, 0, Some((false, format!("cannot parse the builder's stage structure: {}", e))), vec![], vec![], false),
@@ -839,6 +842,7 @@ pub fn main() {
     let mut plain = 0u64;
     if findings.is_empty() {
         for (gi, tr) in &replays {
+            crate::util::crash_note(&format!("{{\"engine\":\"mc-disp\",\"property\":\"C11\",\"part\":\"c\",\"oracle\":\"process crash while dispatching\",\"graph\":{}}}", serde_json::to_string(&gs[*gi]).unwrap_or_default()));
             match replay_trace(&gs[*gi], &stages_of(&gs[*gi]).unwrap(), tr) {
                 Ok(()) => replayed += 1,
                 Err((true, msg)) => {
